@@ -369,7 +369,7 @@ func c02(tier string) int {
 						for _, l := range logs {
 							cp, meta := gen.Get(l, u.Main, part.j.seedAt, "plain")
 							if out := e.Do(wh.Req{LogID: l.ID(), CP: cp, Meta: meta}); out.Class != wh.OK {
-								ev.Internal("C02 seeding failed: %v", out.Err)
+								ev.Internal("C02 seeding failed (%s, %s, size %d): %v", part.j.cfgName, l.Origin, part.j.seedAt, out.Err)
 							}
 						}
 					}
